@@ -427,7 +427,11 @@ class Check:
         if self.only is not None:
             fails = [o for o in fails if (o["rule"], o["key"]) == tuple(self.only)]
         n_obl = len(self.obl)
-        if self.unrecognised and not any(not o["ok"] for o in self.obl):
+        open_keys = {(k.get("rule"), k.get("key")) for k in open_k}
+        real_fail = [o for o in self.obl if not o["ok"] and (o["rule"], o["key"]) not in open_keys]
+        if self.only is not None:
+            real_fail = [o for o in real_fail if (o["rule"], o["key"]) == tuple(self.only)]
+        if self.unrecognised and not real_fail:
             u = self.unrecognised
             raise AnalysisError("%s: %d rule instance(s) could not recognise the construct they are about (no verdict): %s"
                                 % (self.pid, len(u), "; ".join("%s %s [%s] %s" % (x["rule"], x["key"], x["where"], x["msg"][:120]) for x in u[:4])))
